@@ -227,7 +227,7 @@ def run_check(prop, tier, seed):
     budget = TIERS.get(prop, TIERS["default"])[0 if tier == "quick" else 1]
     budget = int(os.environ.get("VERIF_BUDGET_S", budget))
     outdir = tempfile.mkdtemp(prefix="kevosim-out.", dir=scratch_root())
-    replaydir = os.path.join(VERIF, "replays")
+    replaydir = os.environ.get("VERIF_REPLAYDIR") or os.path.join(VERIF, "replays")
     os.makedirs(replaydir, exist_ok=True)
     for old in glob.glob(os.path.join(replaydir, prop + "-*.json")):
         os.remove(old)  # replays of earlier runs of this check are stale
@@ -329,8 +329,9 @@ def finish(prop, tier, seed, results, crashed, outdir, wall):
         "assumptions": ASSUME,
         "wall_s": round(wall, 2), "violations": len(new),
     }
-    os.makedirs(os.path.join(VERIF, "evidence"), exist_ok=True)
-    with open(os.path.join(VERIF, "evidence", prop + ".json"), "w") as f:
+    evdir = os.environ.get("VERIF_EVIDENCEDIR") or os.path.join(VERIF, "evidence")
+    os.makedirs(evdir, exist_ok=True)
+    with open(os.path.join(evdir, prop + ".json"), "w") as f:
         json.dump(ev, f, indent=1)
     zero = [k for k, v in probes.items() if v == 0]
     print("%s %s seed=%d: %d cases, %d evaluations, %d distinct non-trivial, %.0fs wall, %.1f sim-hours, probes=%s faults=%s" % (
